@@ -11,3 +11,4 @@ pub mod connrun;
 pub mod byterun;
 pub mod c12;
 pub mod c19;
+pub mod c20;
